@@ -1,6 +1,10 @@
 ----------------------------- MODULE Gen_Malform -----------------------------
 EXTENDS Malform
 ASSUME ndJsonSerialize("c11_cases.ndjson", SetToSeq(Cases))
+ASSUME ndJsonSerialize("c11c_cases.ndjson", SetToSeq(ClientCases))
+ASSUME ClientOrderly([panicked |-> FALSE, returned |-> TRUE, usableAfterwards |-> TRUE])
+ASSUME ~ClientOrderly([panicked |-> TRUE, returned |-> TRUE, usableAfterwards |-> TRUE])
+ASSUME ~ClientOrderly([panicked |-> FALSE, returned |-> FALSE, usableAfterwards |-> TRUE])
 (* the oracle itself, on the shapes of outcome the harness can report *)
 C == {"a", "b"}
 ASSUME Orderly([panicked |-> FALSE, spun |-> FALSE, connFailed |-> FALSE, stillRegistered |-> FALSE, completed |-> [c \in C |-> 1]], C)
